@@ -13,8 +13,9 @@ def reset():
     sh('git reset -q; git checkout -q -- . ; git clean -fdq')
 meta = json.load(open(os.path.join(seed, 'meta.json')))
 demo_cmd = meta['demo_cmd']
-demo_cmd = re.sub(r'/tmp/wt-c\d+(-target)?', lambda m: '/tmp/wt-me' + (m.group(1) or ''), demo_cmd)
+demo_cmd = re.sub(r'/tmp/wt-c\d+(-target)?', lambda m: WT + (m.group(1) or ''), demo_cmd)
 cmds = [c.strip() for c in re.findall(r'cargo test[^&;(\[\n]*', demo_cmd)]
+cmds = [c if ' -j' in c else c + ' -j 6' for c in cmds]
 cmds = [re.sub(r'\s+\(.*$', '', c) for c in cmds]
 demo_cmd = ' && '.join(dict.fromkeys(cmds)) if cmds else demo_cmd
 out = {'demo_cmd': demo_cmd}
